@@ -660,7 +660,7 @@ func genTrunc(idx int, seed int64, watch bool, mode, tail string, thorough bool)
 		// events of A stay in the output batcher while the truncation is detected
 		s.Cfg.Capacity = 64
 		s.Cfg.BatchSize = 32
-		s.Cfg.FlushMs = 2000
+		s.Cfg.FlushMs = 5000 // the batch timer runs from the creation of the batch (process start): the window must cover read A .. read B
 	}
 	switch mode {
 	case "idle":
